@@ -375,6 +375,34 @@ pub fn mon_returned(case: &Case, rec: &Record, j: &Judged) -> Option<Violation> 
 
 /// The provider must be asked for exactly (access key, token, UTC date, server region, server service).
 pub fn mon_provider_args(case: &Case, rec: &Record, j: &Judged) -> Option<Violation> {
+    if j.analysis.provider_args.is_none() {
+        // A non-ASCII access key: what text the provider should see is left open (Latin-1 or UTF-8 reading of the
+        // bytes), but it must be one of those readings of the key *as sent*, not a trimmed or otherwise edited one.
+        let cred = j.analysis.credential.as_ref()?;
+        let ak = cred.split('/').next()?;
+        if ak.is_ascii() || cred.split('/').count() != 5 {
+            return None;
+        }
+        let mut readings = vec![ak.to_string()];
+        if ak.chars().all(|c| (c as u32) < 256) {
+            let bytes: Vec<u8> = ak.chars().map(|c| c as u32 as u8).collect();
+            readings.push(String::from_utf8_lossy(&bytes).to_string());
+        }
+        // (query carrier: the percent-decoded bytes are UTF-8 here; reading those bytes as Latin-1 is the other option)
+        readings.push(ak.bytes().map(|b| b as char).collect());
+        for ev in &rec.events {
+            if let Ev::Call {
+                access_key,
+                ..
+            } = ev
+            {
+                if !readings.contains(access_key) {
+                    return Some(violation("provider-args", "non-ascii-access-key-edited", format!("provider asked for access key {:?}; the request carried {:?}", access_key, ak), case, None));
+                }
+            }
+        }
+        return None;
+    }
     let want = j.analysis.provider_args.as_ref()?;
     for ev in &rec.events {
         if let Ev::Call {
